@@ -12,7 +12,7 @@ PROPERTY = "C17"
 
 META = {
     "bounds": {
-        "quick": "5 base programs (one holding the same operand texts, valid, in an earlier scope) x every insertion line x 11 error kinds x 6 kinds of symbolic preamble (0-2 symbolic characters) x {main file, included file}",
+        "quick": "5 base programs (one holding the same operand texts, valid, in an earlier scope) x every insertion line x 11 error kinds x 6 kinds of symbolic preamble (0-2 symbolic characters) x {main file, included file, main file through the file API (blank-line / comment preambles, 5 error kinds)}",
         "thorough": "same with 3 symbolic characters and two preambles stacked",
     },
     "outside": ["wording of the messages", "parser syntax errors (not in the property's list)", "preambles longer than the bound"],
@@ -87,7 +87,9 @@ def jobs(tier, seed):
         for pt in insertion_points(base):
             for ek in ERRORS:
                 for pre in ("linecomment", "blockcomment", "blank", "blockcomment-sameline", "number-at-eol", "blockcomment-empty"):
-                    for where in ("main", "included"):
+                    for where in ("main", "included", "file"):
+                        if where == "file" and (pre not in ("blank", "linecomment") or ek not in ("undef-operand", "undef-data", "bad-index", "invalid-char-bol", "unterminated-string")):
+                            continue
                         if bi == 4 and (not ek.startswith("undef") or pre not in ("linecomment", "blank")):
                             continue
                         if where == "included" and bi not in (0, 2, 4):
@@ -161,8 +163,53 @@ def build(spec, cx):
     return chars, idx, body
 
 
+def _run_file_api(spec, cx, chars):
+    """The main file through the file API (Program.assemble_with_emitter): the error text is what gets logged."""
+    import logging
+
+    msgs = []
+
+    class H(logging.Handler):
+        def handle(self, record):
+            msgs.append(record.msg)
+            return True
+
+    names = ("x816", "a816", "a816.program")
+    saved = []
+    old_disable = logging.root.manager.disable
+    logging.disable(logging.NOTSET)
+    h = H(level=logging.DEBUG)
+    for n in names:
+        lg = logging.getLogger(n)
+        saved.append((lg, lg.level, lg.propagate))
+        lg.setLevel(logging.DEBUG)
+        lg.propagate = False
+        lg.addHandler(h)
+    try:
+        p = new_program()
+        with virtual_files(cx, {"zq.s": cx.string(chars)}):
+            try:
+                rc = p.assemble_with_emitter("zq.s", RecWriter())
+            except Exception as e:  # noqa: BLE001
+                return ("other-exception", type(e).__name__)
+    finally:
+        for lg, lvl, prop in saved:
+            lg.removeHandler(h)
+            lg.setLevel(lvl)
+            lg.propagate = prop
+        logging.disable(old_disable)
+    if rc == 0:
+        return ("no-error",)
+    texts = [m for m in msgs if _chars_of(m) is not None and _find_location(_chars_of(m), "zq.s") is not None]
+    if not texts:
+        return ("other-exception", "no located message logged")
+    return ("error-string", texts[0])
+
+
 def run(spec, cx):
     chars, idx, stmt = build(spec, cx)
+    if spec["where"] == "file":
+        return _run_file_api(spec, cx, chars)
     if spec["where"] == "main":
         src, files, fname = cx.string(chars), {}, "zq.s"
     else:
@@ -239,42 +286,45 @@ def check(spec, cx, out):
     # rebuild the file text to compute the expectations
     shadow = _Replay(cx)
     chars, idx, _ = build(spec, shadow)
-    fname = "zq.s" if spec["where"] == "main" else "inc.s"
-    is_nl = []
-    for c in chars[:idx]:
-        if isinstance(c, int):
-            is_nl.append(c == 10)
-        else:
-            d = cx.implied(c == 10)
-            if d is None:
-                return [("newline-structure-decided-by-path", z3.BoolVal(False))]
-            is_nl.append(d)
-    exp_line = sum(1 for x in is_nl if x)
-    last_nl = max([i for i, x in enumerate(is_nl) if x], default=-1)
-    line_start = last_nl + 1
-    exp_text = chars[line_start: idx] + list(chars[idx: idx + len(stmt.split("\n")[0])])
-    col0 = idx - line_start
+    fname = "zq.s" if spec["where"] in ("main", "file") else "inc.s"
+    from vf.oraclex import oracle_cases
+
+    def structure(decide):
+        """(expected line, index of the line's first character) under the decided newline structure."""
+        is_nl = [(c == 10) if isinstance(c, int) else bool(decide(c == 10)) for c in chars[:idx]]
+        last_nl = max([i for i, x in enumerate(is_nl) if x], default=-1)
+        return sum(1 for x in is_nl if x), last_nl + 1
+
     if out[0] in ("no-error", "other-exception"):
         return [("error-reported-as-node-or-scan-error", z3.BoolVal(False))]
-    if out[0] == "scan-exception":
-        _, f, line, col, text = out
-        tchars = _chars_of(text)
-        conds = [z3.BoolVal(f == fname), z3.BoolVal(line == exp_line), _text_eq(tchars, exp_text)]
-        res = [("names-file-line-and-text", z3.And(*conds))]
-        if cols:
-            res.append(("column-of-offending-character", z3.BoolVal(col in [col0 + c for c in cols])))
-        return res
-    msg = _chars_of(out[1])
-    if msg is None:
-        return [("message-is-text", z3.BoolVal(False))]
-    loc = _find_location(msg, fname)
-    if loc is None:
-        return [("names-file-line-and-text", z3.BoolVal(False))]
-    line, col, _ = loc
-    conds = [z3.BoolVal(line == exp_line), _contains_line(msg, exp_text)]
-    res = [("names-file-line-and-text", z3.And(*conds))]
-    if cls == "scan" and cols:
-        res.append(("column-of-offending-character", z3.BoolVal(col is not None and col in [col0 + c for c in cols])))
+    loc_conds, col_conds = [], []
+    for assum, st in oracle_cases(cx, structure):
+        if st is None:
+            continue
+        pre = z3.And(*assum) if assum else z3.BoolVal(True)
+        exp_line, line_start = st
+        exp_text = chars[line_start: idx] + list(chars[idx: idx + len(stmt.split("\n")[0])])
+        col0 = idx - line_start
+        if out[0] == "scan-exception":
+            _, f, line, col, text = out
+            tchars = _chars_of(text)
+            loc_conds.append(z3.Implies(pre, z3.And(z3.BoolVal(f == fname), z3.BoolVal(line == exp_line), _text_eq(tchars, exp_text))))
+            if cols:
+                col_conds.append(z3.Implies(pre, z3.BoolVal(col in [col0 + c for c in cols])))
+            continue
+        msg = _chars_of(out[1])
+        if msg is None:
+            return [("message-is-text", z3.BoolVal(False))]
+        loc = _find_location(msg, fname)
+        if loc is None:
+            return [("names-file-line-and-text", z3.BoolVal(False))]
+        line, col, _ = loc
+        loc_conds.append(z3.Implies(pre, z3.And(z3.BoolVal(line == exp_line), _contains_line(msg, exp_text))))
+        if cls == "scan" and cols:
+            col_conds.append(z3.Implies(pre, z3.BoolVal(col is not None and col in [col0 + c for c in cols])))
+    res = [("names-file-line-and-text", z3.And(*loc_conds) if loc_conds else z3.BoolVal(True))]
+    if col_conds:
+        res.append(("column-of-offending-character", z3.And(*col_conds)))
     return res
 
 
